@@ -1,4 +1,47 @@
 (* further command handlers are registered here as the model grows *)
 open Model
 open Driver_util
-let register (_reg : string -> (string list -> string) -> unit) = ()
+
+let lop_of_string s = match s with
+  | "shared.lock" -> SharedLock | "shared.unlock" -> SharedUnlock
+  | "reserved.lock" -> ReservedLock | "reserved.unlock" -> ReservedUnlock
+  | "pending.lock" -> PendingLock | "pending.unlock" -> PendingUnlock
+  | "exclusive.lock" -> ExclusiveLock | "exclusive.unlock" -> ExclusiveUnlock
+  | _ -> failwith ("bad lock op " ^ s)
+
+let label_of_string s = match s with
+  | "begin" -> LBegin | "work" -> LWork | "close" -> LClose
+  | "wbegin" -> LWBegin | "wwork" -> LWWork | "rollback" -> LRollback
+  | "pend" -> LPend | "io" -> LIO | "fail" -> LFail
+  | "excl" -> LExcl | "switch" -> LSwitch | "noswitch" -> LNoSwitch
+  | "unpend" -> LUnpend | "release" -> LRelease
+  | _ -> failwith ("bad label " ^ s)
+
+let pc_of_string s = match s with
+  | "R0" -> R0 | "R2" -> R2 | "W0" -> W0 | "W1" -> W1 | "W2" -> W2 | "W3" -> W3 | "W4" -> W4 | "W5" -> W5 | "Wd" -> Wd
+  | _ -> if String.length s > 2 && s.[0] = 'R' && s.[1] = '1' then R1 (nat_of_int (int_of_string (String.sub s 3 (String.length s - 3))))
+         else failwith ("bad pc " ^ s)
+let string_of_pc p = match p with
+  | R0 -> "R0" | R1 v -> "R1:" ^ string_of_int (int_of_nat v) | R2 -> "R2"
+  | W0 -> "W0" | W1 -> "W1" | W2 -> "W2" | W3 -> "W3" | W4 -> "W4" | W5 -> "W5" | Wd -> "Wd"
+
+let mk_lk s p r = { shared = nat_of_int (int_of_string s); pending = tok_bool p; reserved = tok_bool r }
+let string_of_lk l = Printf.sprintf "%d,%s,%s" (int_of_nat l.shared) (bool_tok l.pending) (bool_tok l.reserved)
+
+let register (reg : string -> (string list -> string) -> unit) =
+  (* lockscript s p r op... : per op the new state, or B when the op would block (state unchanged) *)
+  reg "lockscript" (fun a -> match a with
+    | s :: p :: r :: ops ->
+      let st = ref (mk_lk s p r) in
+      String.concat " " (List.map (fun o ->
+        match lock_apply !st (lop_of_string o) with
+        | Some l -> st := l; string_of_lk l
+        | None -> "B") ops)
+    | _ -> failwith "args");
+  (* runlabels s p r version pc label... : resulting lock state, version and pc, or none *)
+  reg "runlabels" (fun a -> match a with
+    | s :: p :: r :: v :: pc :: labs ->
+      (match run_labels (mk_lk s p r) (nat_of_int (int_of_string v)) (pc_of_string pc) (List.map label_of_string labs) with
+       | Some ((l, v'), pc') -> string_of_lk l ^ " " ^ string_of_int (int_of_nat v') ^ " " ^ string_of_pc pc'
+       | None -> "none")
+    | _ -> failwith "args")
